@@ -37,7 +37,7 @@ CHECKS = {
    text="Proof: every_call_terminates (the driver loop terminates from every invariant state for every RunUntil/Stop/pacing/debt/fault position), finish_marking_some_iff (Some exactly when not Sweeping), finish_cycle_ends_sleeping, cycle_never_rewakes (nothing follows the Sweep->Sleep switch in one cycle_debt/finish_cycle call), asserts unreachable for every history; micro-step phase order; sweep only from fully marked; mark_debt/finish_marking are no-ops from Marked and from Sweeping; start_sweeping ends Sweeping; callbacks keep the phase. Tie: T1 self-driven (the model computes debt itself; step logs compared); protocol automaton monitor.",
    ref="DESIGN §6 C08"),
  "C09": dict(level="proof", tech="Lean 4 over exact rationals: counting invariant Acc over all histories, rho-bound, sleep, stop-the-world + self-driven correspondence + debt monitors",
-   text="Proof: collect_debt_zero, cycle_debt_zero_or_asleep, mark_debt_zero_or_marked (every debt-driven call returns with zero debt or at its stopping phase, from every state, any pacing/debt/fault); `acc_run` (counting invariant: the credit counters are bounded by colour counts in every reachable state) => credits_bounded, rho_bound / rho_bound_quotient (a cycle that woke in debt with H allocations is unfinished after cycle_debt only if fewer than rho*H/(1-rho) allocations were made since — for any rho-pacing, provided the arena is non-empty), cycles_complete; sleep_schedule (wakeup = max(min_sleep, sleep_factor x survivors)), sleep_honoured, stays_asleep (asleep with no carried debt: debt-driven calls are no-ops and debt reads 0 until allocations exceed the threshold, positive after). Stop-the-world: the clause as stated is FALSE in one corner — `stop_the_world_claim_false` proves the negation with a concrete run (known finding, replay in corpus/); `stop_the_world_partial` / `stop_the_world_any` prove what holds instead (returns Sleeping or the arena holds no allocation). f64 rounding is modelled by exact rationals. Tie: T1/sd exact counter and debt correspondence on dyadic pacing; monitors (zero debt, no progress asleep, rho-bound, a collection call never increases debt).",
+   text="Proof: collect_debt_zero, cycle_debt_zero_or_asleep, mark_debt_zero_or_marked (every debt-driven call returns with zero debt or at its stopping phase, from every state, any pacing/debt/fault); `acc_run` (counting invariant: the credit counters are bounded by colour counts in every reachable state) => credits_bounded, rho_bound / rho_bound_quotient (a cycle that woke in debt with H allocations is unfinished after cycle_debt only if fewer than rho*H/(1-rho) allocations were made since — for any rho-pacing, provided the arena is non-empty), cycles_complete; sleep_schedule (wakeup = max(min_sleep, sleep_factor x survivors)), sleep_honoured, stays_asleep (asleep with no carried debt: debt-driven calls are no-ops and debt reads 0 until allocations exceed the threshold, positive after). Stop-the-world: `stop_the_world` / `stop_the_world_any` (with all work factors zero, collect_debt / cycle_debt called with positive debt return only Sleeping — for every fault position) and `never_parked`; on the pinned tree this clause failed in one corner (defect D5, shown by the check with replay corpus/C09-stw-empty-arena.ops, repaired by /repo commit 73a575a). f64 rounding is modelled by exact rationals. Tie: T1/sd exact counter and debt correspondence on dyadic pacing; monitors (zero debt, no progress asleep, rho-bound, a collection call never increases debt).",
    ref="DESIGN §6 C09, §7"),
  "C10": dict(level="proof", tech="Lean 4 (debt algebra, count exact over all histories, monotonicity per op) + self-driven correspondence in debug and release",
    text="Proof: debt non-negative, zero for an empty arena, adjust exact; count_exact / count_zero_after_drop (total_gc_count = allocations made and not yet released, in every history); no counter underflow is a component of Inv (inv_run); debt_never_decreased (no mutator operation other than the knobs and the forward-like barriers lowers allocation_debt, in ANY state, given trace_factor >= 0), plain_metrics, plain_ops, debt_forward_work (forward barriers / resurrect lower it by at most mark_factor per newly marked object: marking work performed by the barrier, DESIGN 8). Tie: exact comparison of every counter and of the debt (as exact rationals) after every op, in debug and release builds of the harness.",
